@@ -769,7 +769,14 @@ pub fn run_scenario(
                         let d = TxDesc { id: id.clone(), signer: scn.node_key.clone(), ins: vec![], outs: vec![], path: vec![], edit: None, data: None,
                                          fee: 0, tune: false };
                         let sig = tx.signature;
-                        r.pool_descs.insert(sig, d.clone());
+                        // the signature does not cover where an input lives, only its owner, amount and type: two
+                        // payments that differ only in which equal-valued output they spend have ONE signature,
+                        // and the pool (keyed by signature) takes the second for a copy of the first
+                        let collision = r.pool_descs.contains_key(&sig)
+                            && rt.block_on(async { r.node.mempool.read().await.transactions.contains_key(&sig) });
+                        if !collision {
+                            r.pool_descs.insert(sig, d.clone());
+                        }
                         let after_build = r.state(&r.node);
                         let node = &r.node;
                         let txc = tx.clone();
@@ -782,6 +789,7 @@ pub fn run_scenario(
                             })
                         });
                         let resn = match res {
+                            Ok(true) if collision => "Duplicate".to_string(),
                             Ok(true) => "Pooled".to_string(),
                             Ok(false) => "Rejected".to_string(),
                             Err(p) => format!("Panic:{}", p),
